@@ -21,4 +21,7 @@ def run(tier, seed):
     # key derivation as one run (seed -> SHA-512 -> clamp -> s*B -> Encode), SHA-512 uninterpreted: checks/c08k.py (llsym layer G)
     from checks import c08k
     for t in c08k.harnesses(rep, tier): t()
+    # the whole signing run (seed -> signature) against RFC 8032 5.1.6 in the exact group model: checks/c08s.py
+    from checks import c08s
+    for t in c08s.sign_harnesses(rep, tier): t()
     return rep
